@@ -42,9 +42,16 @@ JudgeCall(e) ==
   LET m   == e.m
       st  == e.state
       ref == Post(Cur, m)
-      ty  == m.type
+      ty  == IF m.type = "cast" /\ m.v = 1 THEN "castWhileShareOverPartyKeyArrives" ELSE m.type
   IN  (* C15's clause on the full path: a counted share is the sender's valid share for the party's block *)
       Tag(AllSharesValid(st), "Inv.OnlyValidShares:" \o ty) \o
+      (* ... and at this entry point too a member's valid share for the block of a live party that can still
+         take it is counted (or completes the threshold), whatever was filed under that member's id before:
+         otherwise threshold-many honest answers do not finalise the block (last clause) *)
+      Tag((m.type = "verify" /\ m.filed \in DOMAIN parties /\ Counts(parties[m.filed], m.filed, m))
+            => \/ (m.filed \in DOMAIN ObsParties(st) /\ m.sender \in ObsParties(st)[m.filed])
+               \/ m.filed \in Range(st.added),
+          "Inv.ValidShareIsCounted:honest") \o
       (* conformance of the real handlers with the reference, component by component *)
       Tag(~e.panicked, "Ext.Panic:" \o ty) \o
       Tag(ObsParties(st) = ref.parties, "Ext.Step.parties:" \o ty) \o
